@@ -637,7 +637,7 @@ func findBound(ctx context.Context, s *stater, upper *State, timestamp time.Time
 			return nil, nil, err
 		}
 
-		if lower != nil && lower.Timestamp.After(timestamp) {
+		if lower != nil && !timestamp.After(lower.Timestamp) {
 			if lower.SeqNum+1 >= upper.SeqNum {
 				return lower, upper, nil // edge case if there are only two sequence numbers
 			}
@@ -792,7 +792,7 @@ func findBound(ctx context.Context, s *stater, upper *State, timestamp time.Time
 			return nil, nil, err
 		}
 
-		if lower != nil && lower.Timestamp.After(timestamp) {
+		if lower != nil && !timestamp.After(lower.Timestamp) {
 			if lower.SeqNum+1 >= upper.SeqNum {
 				return lower, upper, nil // edge case if there are only two sequence numbers
 			}
@@ -1302,7 +1302,7 @@ func above(lower *State, id uint64) bool {
 			return nil, nil, err
 		}
 
-		if lower != nil && lower.Timestamp.After(timestamp) {
+		if lower != nil && !timestamp.After(lower.Timestamp) {
 			if lower.SeqNum+1 >= upper.SeqNum {
 				return lower, upper, nil // edge case if there are only two sequence numbers
 			}
@@ -1340,7 +1340,7 @@ func above(lower *State, id uint64) bool {
 		}
 
 		if candidate != nil {
-			if !candidate.Timestamp.After(timestamp) {
+			if timestamp.After(candidate.Timestamp) {
 				return candidate, upper, nil
 			}
 
@@ -1362,5 +1362,41 @@ func above(lower *State, id uint64) bool {
 		lowerID = newID
 	}
 }
+`},
+	// mirrored comparison in the lower-bound finder
+	{Name: "b-finder-order-before-mirrored", File: "replication/search.go",
+		Find:    `lower != nil && !timestamp.After(lower.Timestamp)`,
+		Replace: `lower != nil && !lower.Timestamp.Before(timestamp)`},
+	// Compare instead of After in the lower-bound finder
+	{Name: "b-finder-order-compare", File: "replication/search.go",
+		Find:    `lower != nil && !timestamp.After(lower.Timestamp)`,
+		Replace: `lower != nil && timestamp.Compare(lower.Timestamp) <= 0`},
+	// inverted branch (the answer guard of the search)
+	{Name: "b-caller-guard-inverted", File: "replication/search.go",
+		Find: `	if !timestamp.After(lower.Timestamp) {
+		// the lowest state is already at or after the timestamp.
+		return lower, nil
+	}
+
+	return findInRange(ctx, s, lower, upper, timestamp)
+`,
+		Replace: `	if timestamp.After(lower.Timestamp) {
+		return findInRange(ctx, s, lower, upper, timestamp)
+	}
+
+	// the lowest state is already at or after the timestamp.
+	return lower, nil
+`},
+	// if-init form, split comparison (Equal || After)
+	{Name: "b-caller-guard-equal-or-after", File: "replication/search.go",
+		Find: `	if !timestamp.After(lower.Timestamp) {
+		// the lowest state is already at or after the timestamp.
+		return lower, nil
+	}
+`,
+		Replace: `	if ts := lower.Timestamp; ts.Equal(timestamp) || ts.After(timestamp) {
+		// the lowest state is already at or after the timestamp.
+		return lower, nil
+	}
 `},
 }
